@@ -158,3 +158,100 @@ package store
 //@   ensures result != nil && result.Top != nil && fresh(result.Top) && result.Top != top && fresh(result.Top.Top) && len(result.Top.Top) == len(top.Top)
 //@   ensures forall(a, 0, len(top.Top), sameCand(result.Top.Top[a], top.Top[a]) && fresh(result.Top.Top[a]))
 //@   nopanic
+
+// ---------------------------------------------------------------------------------------------------------------------
+// C19, the block store's part: the unconfirmed-block tree (LastConfirm, UnConfirmBlocks) is shared by the consensus thread
+// (SetBlock, SetStableBlock, CandidatesRanking under the engine's chain lock), the batch-confirm goroutine (SetConfirms) and rpc
+// threads (account reads -> GetActDatabase, block queries).  Discipline: both fields are only touched with database.RW held;
+// exported methods take it themselves (requires !held, ensures !held), the lower-case helpers are entered with it held.
+//@ guarded_by ChainDatabase.LastConfirm, ChainDatabase.UnConfirmBlocks : ChainDatabase.RW
+
+//@ func (*ChainDatabase).GetLastConfirm
+//@   props C19
+//@   requires database != nil && !held(database.RW) && !rheld(database.RW)
+//@   ensures !held(database.RW) && !rheld(database.RW)
+//@ func (*ChainDatabase).LoadLatestBlock
+//@   props C19
+//@   requires database != nil && !held(database.RW) && !rheld(database.RW)
+//@   ensures !held(database.RW) && !rheld(database.RW)
+//@ func (*ChainDatabase).GetActDatabase
+//@   props C19
+//@   requires database != nil && !held(database.RW) && !rheld(database.RW)
+//@   ensures !held(database.RW) && !rheld(database.RW)
+//@ func (*ChainDatabase).CandidatesRanking
+//@   props C19
+//@   requires database != nil && !held(database.RW) && !rheld(database.RW)
+//@   ensures !held(database.RW) && !rheld(database.RW)
+//@ func (*ChainDatabase).IterateUnConfirms
+//@   props C19
+//@   requires database != nil && !held(database.RW) && !rheld(database.RW)
+//@   ensures !held(database.RW) && !rheld(database.RW)
+//@ func (*ChainDatabase).GetBlockByHeight
+//@   props C19
+//@   requires database != nil && !held(database.RW) && !rheld(database.RW)
+//@   ensures !held(database.RW) && !rheld(database.RW)
+//@ func (*ChainDatabase).GetBlockByHash
+//@   props C19
+//@   requires database != nil && !held(database.RW) && !rheld(database.RW)
+//@   ensures !held(database.RW) && !rheld(database.RW)
+//@ func (*ChainDatabase).IsExistByHash
+//@   props C19
+//@   requires database != nil && !held(database.RW) && !rheld(database.RW)
+//@   ensures !held(database.RW) && !rheld(database.RW)
+//@ func (*ChainDatabase).GetUnConfirmByHeight
+//@   props C19
+//@   requires database != nil && !held(database.RW) && !rheld(database.RW)
+//@   ensures !held(database.RW) && !rheld(database.RW)
+// every node of the tree carries its account/candidate views and a well-formed top list (established by the constructors
+// NewGenesisBlock/NewNormalBlock; here a precondition, not re-proved for the whole tree)
+//@ pred wfCB(b *CBlock) = b != nil && b.Top != nil && wfCands(b.Top.Top) && b.AccountTrieDB != nil && b.CandidateTrieDB != nil
+//@ func (*ChainDatabase).SetBlock
+//@   props C19
+//@   requires database != nil && !held(database.RW) && !rheld(database.RW)
+//@   requires wfCB(database.LastConfirm) && forallKeys(h, database.UnConfirmBlocks, wfCB(database.UnConfirmBlocks[h]))
+//@   ensures !held(database.RW) && !rheld(database.RW)
+//@ func (*ChainDatabase).SetConfirms
+//@   props C19
+//@   requires database != nil && !held(database.RW) && !rheld(database.RW)
+//@   ensures !held(database.RW) && !rheld(database.RW)
+//@ func (*ChainDatabase).GetConfirms
+//@   props C19
+//@   requires database != nil && !held(database.RW) && !rheld(database.RW)
+//@   ensures !held(database.RW) && !rheld(database.RW)
+//@ func (*ChainDatabase).SetStableBlock
+//@   props C19
+//@   requires database != nil && !held(database.RW) && !rheld(database.RW)
+//@   ensures !held(database.RW) && !rheld(database.RW)
+//@ func (*ChainDatabase).GetCandidatesTop
+//@   props C19
+//@   requires database != nil && !held(database.RW) && !rheld(database.RW)
+//@   ensures !held(database.RW) && !rheld(database.RW)
+//@ func (*ChainDatabase).SerializeForks
+//@   props C19
+//@   requires database != nil && !held(database.RW) && !rheld(database.RW)
+//@   ensures !held(database.RW) && !rheld(database.RW)
+// helpers: entered and left with the write lock held
+//@ func (*ChainDatabase).blockCommit
+//@   props C19
+//@   requires database != nil && held(database.RW)
+//@   ensures held(database.RW)
+//@ func (*ChainDatabase).getBlock4Cache
+//@   props C19
+//@   requires database != nil && held(database.RW)
+//@   ensures held(database.RW)
+// the key-value store below the tree (BeansDB/LevelDB: files, its own locks) does not touch the tree: assumed
+//@ func UtilsGetBlockByHash   trusted
+//@   modifies allbut(ChainDatabase, CBlock, VoteTop, Candidate, []*Candidate, map[common.Hash]*CBlock, types.Block, types.Header)
+//@ func (*ChainDatabase).isExistByHash
+//@   props C19
+//@   requires database != nil && held(database.RW)
+//@   modifies allbut(ChainDatabase, CBlock, VoteTop, Candidate, []*Candidate, map[common.Hash]*CBlock, types.Block, types.Header)
+//@   ensures held(database.RW)
+//@ func (*ChainDatabase).setConfirm
+//@   props C19
+//@   requires database != nil && held(database.RW)
+//@   ensures held(database.RW)
+//@ func (*ChainDatabase).getBlock
+//@   props C19
+//@   requires database != nil && held(database.RW)
+//@   ensures held(database.RW)
